@@ -781,6 +781,11 @@ func (vc *VC) symMethodResults(st *State, r SymIface, full string, sig *types.Si
 					rets = append(rets, SymIface{T: id, Type: rt})
 					continue
 				}
+				if _, isStruct := rt.Underlying().(*types.Struct); isStruct && len(args) == 0 {
+					// e.g. image.Image.Bounds(): a struct of scalars, one constant per field
+					rets = append(rets, vc.fresh(rt, fmt.Sprintf("%s.%d", full, i), st))
+					continue
+				}
 				panic(execError{"symbolic interface method " + full + " has unsupported result type"})
 			}
 			var t Term
